@@ -540,7 +540,11 @@ def check_C06(prop, tier, only):
     jobs = stack_suite(tier, c, extra="--tries 1") + stack_suite(tier, c[:1], extra="--moves 2") + growfail_jobs(tier, c[:1] if tier == "quick" else c)
     for j in jobs:
         j["own"] = ["M-upstream", "M-noreport", "M-content", "M-inside", "M-disjoint"]  # a valid unwind that is reported as invalid did not restore the state; "blocks freed by unwinding are kept for reuse until shrink_to_fit": block/cache accounting of the stack
-    return run_explore_check(prop, tier, jobs, only, note=NOTE_BFS +
+    # the RAII form of mark/unwind: all contract-respecting sequences over two memory_stack_raii_unwind objects (stateless DFS, reference model)
+    ej = [J("h_raii", cfg, "", name=f"raii-unwind[{cfg}]") for cfg in (("rwd", "dbg") if tier == "quick" else ("rel", "rwd", "dbg"))]
+    return run_explore_check(prop, tier, jobs, only, enum_jobs=ej, note=NOTE_BFS +
+                             "memory_stack_raii_unwind (h_raii): all sequences to depth 7/8 over allocate / create / move construct / move assign (both directions, armed and released "
+                             "targets, named live sources) / release / unwind / destroy of two unwinders against a reference model (armed state, marker, top() after every implicit unwind, contents); "
                              "memory_stack with mark / unwind(j) for every valid nested j / shrink_to_fit / move; M-unwind: capacity restored, top()==marker, "
                              "markers totally ordered with consistent operators, unwind never touches the upstream, shrink_to_fit empties the cache, and a twin "
                              "comparison: probe requests on the unwound object return the same addresses and capacities as on a snapshot of the object taken when "
